@@ -788,7 +788,9 @@ def get_message_batch(kafka_params, topic, partition, keys, low, high, timeout=N
     try:
         while True:
             msg = consumer.poll(0)
-            if msg and msg.value() and msg.error() is None:
+            # a message with an empty value is falsy, but a message all the
+            # same: it belongs to the batch and can be the one that ends it
+            if msg is not None and msg.error() is None:
                 if high >= msg.offset():
                     if keys:
                         out.append({'key':msg.key(), 'value':msg.value()})
